@@ -540,7 +540,7 @@ fn check_state(ctx: &mut RunCtx, w: &World, owner: &str, api: &str) -> Step<()> 
                         return Some(format!("bytes differ at {:#x}: mila {:#04x}, model {:#04x}", i, b[i], m.data[i]));
                     }
                 }
-                Err(e) => return Some(format!("read_bytes(0,size) failed: {}", e)),
+                Err(e) => return Some(format!("ACCESSOR read_bytes(0,size) failed: {}", e)),
             }
         }
         if n >= 4 {
@@ -551,7 +551,7 @@ fn check_state(ctx: &mut RunCtx, w: &World, owner: &str, api: &str) -> Step<()> 
                             return Some(format!("string at {:#x}: mila {:?}, model {:?}", addr, s, m.text.get(&addr)));
                         }
                     }
-                    Err(e) => return Some(format!("read_string({:#x}) failed: {}", addr, e)),
+                    Err(e) => return Some(format!("ACCESSOR read_string({:#x}) failed: {}", addr, e)),
                 }
                 match a.read_pointer(addr) {
                     Ok(p) => {
@@ -559,7 +559,7 @@ fn check_state(ctx: &mut RunCtx, w: &World, owner: &str, api: &str) -> Step<()> 
                             return Some(format!("pointer at {:#x}: mila {:?}, model {:?}", addr, p, m.pointers.get(&addr)));
                         }
                     }
-                    Err(e) => return Some(format!("read_pointer({:#x}) failed: {}", addr, e)),
+                    Err(e) => return Some(format!("ACCESSOR read_pointer({:#x}) failed: {}", addr, e)),
                 }
                 match a.read_labels(addr) {
                     Ok(l) => {
@@ -569,7 +569,7 @@ fn check_state(ctx: &mut RunCtx, w: &World, owner: &str, api: &str) -> Step<()> 
                             return Some(format!("labels at {:#x}: mila {:?}, model {:?}", addr, l, want));
                         }
                     }
-                    Err(e) => return Some(format!("read_labels({:#x}) failed: {}", addr, e)),
+                    Err(e) => return Some(format!("ACCESSOR read_labels({:#x}) failed: {}", addr, e)),
                 }
             }
         }
@@ -585,6 +585,16 @@ fn check_state(ctx: &mut RunCtx, w: &World, owner: &str, api: &str) -> Step<()> 
         None
     })?;
     if let Some(d) = diff {
+        if let Some(rest) = d.strip_prefix("ACCESSOR ") {
+            // an in-range accessor call was rejected: that is C04's bounds clause,
+            // whatever operation ran before
+            return ctx.violation_for(
+                "C04",
+                "return_value",
+                format!("state_observation|rejected_valid_request|{}", rest.split('(').next().unwrap_or("")),
+                format!("after {}: {}", api, rest),
+            );
+        }
         let comp = d.split(|c: char| c == ' ' || c == ':').next().unwrap_or("state").to_string();
         return ctx.violation_for(
             owner,
@@ -658,7 +668,16 @@ fn mask(ty: Ty, bits: u32) -> u32 {
 }
 
 fn cursor_check(ctx: &mut RunCtx, api: &str, ok: bool, before: usize, after: usize, width: usize) -> Step<()> {
-    // the cursor after a failed stream access is not specified by the statement
+    // the cursor advances by exactly the width of each *successful* value access:
+    // a rejected access is not a successful one and must leave it where it was
+    if !ok && after != before {
+        return ctx.violation_for(
+            "C04",
+            "cursor",
+            format!("{}|cursor_moved_by_failed_access", api),
+            format!("{}: the access was rejected but the cursor moved {:#x} -> {:#x}", api, before, after),
+        );
+    }
     if ok {
         let want = before.wrapping_add(width);
         if after != want {
